@@ -140,6 +140,12 @@ func TestReplay(t *testing.T) {
 	if o.V == orc.Discard {
 		t.Logf("replay input not judged: %s %s", o.Class, o.Msg)
 	}
+	if o.V == orc.OK {
+		// external inputs are also held to the fixpoint statement (as the fuzz entry does)
+		if v, o2 := judgeExternal(x); v == "violation" {
+			hx.Fail(t, "Replay", "ll", x, "%s", o2.Describe())
+		}
+	}
 	_ = llvmx.Accept
 }
 
